@@ -77,6 +77,8 @@ structure State where
   closed : Bool := false
   hookHold : Bool := false           -- the application's hook is parked inside a Detached callback
   heldDetached : List Nat := []      -- pipes whose Detached callback has not returned yet
+  attaching : List Nat := []         -- listed, id reserved, hook parked inside the Attaching callback (at most one)
+  attachClosed : Bool := false       -- … and closed meanwhile (by the application or by socket close)
   tprev : Nat := 0
   -- ghost: per pipe the hook events seen so far, in order
   hooklog : List (Nat × String) := []
@@ -189,6 +191,13 @@ def core (s : State) (now : Nat) (op : List String) : List (State × List CEv) :
     | none => []
     | some x =>
       if !x.active || x.closed then [(s, [])] else
+      if mode == "hookpark" then
+        -- the application's hook does not return from Attaching yet: the pipe is listed and holds its id, nothing else
+        if s.attaching != [] then [] else
+        let k := s.npipes + 1
+        [({ s with npipes := k, used := s.used ++ [k], hooklog := s.hooklog ++ [(k, "attaching")], attaching := [k], attachClosed := false },
+          [.hook "attaching" k])]
+      else
       if mode == "deadpeer" then
         -- the peer is gone by the time the pipe is attached: the protocol's first receive fails and closes it
         let (s1, evs) := addPipe s none "plain"
@@ -233,7 +242,17 @@ def core (s : State) (now : Nat) (op : List String) : List (State × List CEv) :
         else
           let t : Timer := { tmin := s.tprev + x.cur, tmax := now + x.curHi, delay := 0 }
           [(setDialer s x.d (fun y => { backoff y with dialing := none, timer := some t }), if c != 0 then [.ret c "connrefused"] else [])]
+  | ["attachrelease"] =>
+    -- the Attaching callback returns: a pipe closed meanwhile is dropped without ever reaching the protocol
+    match s.attaching with
+    | [k] =>
+      if s.attachClosed || s.closed then [({ s with used := s.used.erase k, attaching := [], attachClosed := false }, [])]
+      else [({ s with pipes := s.pipes ++ [{ k := k, dialer := none, added := true, closed := false }],
+                      hooklog := s.hooklog ++ [(k, "attached")], attaching := [] },
+             [.proto "add-ok" k, .hook "attached" k])]
+    | _ => [(s, [])]
   | ["drop", k] | ["pclose", k] =>
+    if s.attaching.contains (natOf k) then [({ s with attachClosed := true }, [])] else
     match s.pipes.find? (fun p => p.k = natOf k) with
     | none => [(s, [])]
     | some p =>
@@ -255,7 +274,7 @@ def core (s : State) (now : Nat) (op : List String) : List (State × List CEv) :
   | ["hookrelease"] => [({ s with used := s.used.filter (fun k => !s.heldDetached.contains k), heldDetached := [], hookHold := false }, [])]
   | ["sleep", _] => [(s, [])]
   | ["sockclose"] =>
-    let s1 := { s with closed := true, listeners := s.listeners.map (fun x => { x with closed := true }),
+    let s1 := { s with closed := true, attachClosed := true, listeners := s.listeners.map (fun x => { x with closed := true }),
                        dialers := s.dialers.map (fun x => { x with closed := true }) }
     let (s2, evs) := closeAllPipes s1
     -- pipes of dialers arm redial timers that will find the dialer closed
@@ -278,10 +297,18 @@ def insertSorted (x : Nat × CEv) : List (Nat × CEv) → List (Nat × CEv)
 def canon (evs : List CEv) : List CEv :=
   ((evs.map (fun e => (rank e, e))).foldl (fun acc x => insertSorted x acc) []).map (·.2)
 
+def insNat (x : Nat) : List Nat → List Nat
+  | [] => [x]
+  | y :: ys => if x < y then x :: y :: ys else y :: insNat x ys
+
+def sortNat (l : List Nat) : List Nat := l.foldl (fun acc x => insNat x acc) []
+
 def render (evs : List CEv) (s : State) : String :=
   let body := (canon evs).map CEv.render
   let ids := "ids:" ++ ",".intercalate ((s.used.map toString))
-  let listed := "listed:" ++ ",".intercalate ((s.pipes.map (fun p => toString p.k)))
+  let ks := s.pipes.map (·.k)
+  let all := sortNat (ks ++ s.attaching)
+  let listed := "listed:" ++ ",".intercalate (all.map toString)
   " ".intercalate (body ++ [ids, listed])
 
 def step (s : State) (op : List String) : List (State × String) :=
